@@ -464,3 +464,44 @@ package pdf
 //@   loop 1: invariant (start != 1 || (old(0 in xref) && old(xref[0]) != nil)) ==> forall k int :: (k in xref) && !old(k in xref) ==> start <= k && k < i
 //@   loop 1: invariant forall k int :: (k in xref) && !old(k in xref) ==> start <= k + 1 && k < i
 //@   loop 1: decreases end - i
+
+// ---- writer bookkeeping (C02, C03) ----
+//@ func (*posWriter).Write (w, p) (n, err)
+//@   tags C02 C03 C19
+//@   requires w.w != nil
+//@   assigns w.pos, w.w.log
+//@   ensures 0 <= n && n <= len(p) && w.pos == old(w.pos) + n
+//@   ensures err == nil ==> n == len(p)
+//@   ensures len(w.w.log) == old(len(w.w.log)) + n
+//@   ensures forall k in old(len(w.w.log))..len(w.w.log) :: w.w.log[k] == p[k - old(len(w.w.log))]
+//@   ensures forall i in 0..old(len(w.w.log)) :: w.w.log[i] == old(w.w.log[i])
+
+//@ func (*Writer).Alloc (w) (r)
+//@   tags C02 C03
+//@   requires w.nextRef < 16777216
+//@   assigns w.nextRef
+//@   ensures r == old(w.nextRef) && w.nextRef == old(w.nextRef) + 1
+
+//@ func (*Writer).setXRef (w, ref, entry) (err)
+//@   tags C02 C03
+//@   requires w.xref != nil && ref % 4294967296 < 16777216
+//@   assigns w.nextRef, mapof(w.xref)
+//@   ensures (err != nil) == old((ref % 4294967296) in w.xref)
+//@   ensures err == nil ==> ((ref % 4294967296) in w.xref) && w.xref[ref % 4294967296] == entry && w.nextRef > ref % 4294967296 && w.nextRef >= old(w.nextRef)
+//@   ensures err != nil ==> w.nextRef == old(w.nextRef)
+//@   ensures forall k int :: k != ref % 4294967296 || err != nil ==> (k in w.xref) == old(k in w.xref) && w.xref[k] == old(w.xref[k])
+
+//@ func checkCompressed (refs, objects) (err)
+//@   tags C02 C03
+//@   pure
+//@   ensures err == nil ==> len(refs) == len(objects)
+//@   ensures err == nil ==> forall i in 0..len(refs) :: (refs[i] / 4294967296) % 65536 == 0
+//@   loop 1: invariant \done <= len(objects) && forall i in 0..\done :: (refs[i] / 4294967296) % 65536 == 0
+
+//@ func (*Writer).WriteCompressed (w, refs, objects) (err)
+//@   tags C02
+//@   requires w.xref != nil && w.w != nil && w.nextRef < 16777216
+//@   havoc .Format .Put .OpenStream
+//@   loop 1: invariant len(refs) == len(objects)
+//@   loop 2: invariant len(refs) == len(objects) && w.xref != nil
+//@   loop 3: invariant len(refs) == len(objects) && N == len(objects)
